@@ -100,11 +100,8 @@ class Element(Selector):
 
     @cached_property
     def all_captures(self):
-        if self.capture and not self.capture.startswith("/"):
-            return {self.capture}
-        else:  # pragma: no cover
-            # Does not currently happen
-            return set()
+        # This includes the automatic names of generic captures (/0, /1...)
+        return {self.capture} if self.capture else set()
 
     @cached_property
     def all_values(self):
